@@ -137,7 +137,7 @@ def run_world(desc: dict[str, Any], *, scoped: bool = True, capture_logs: bool =
     extra = desc.get('extra_resources') or []
     peering = desc.get('peering')
     if peering:
-        res = res + [fakekube.CLUSTER_PEERING]
+        res = res + ([fakekube.NS_PEERING] if peering.get('namespaced') else [fakekube.CLUSTER_PEERING])
     sim = Sim(resources=res + [fakekube.resdef(**r) for r in extra], seed=desc.get('seed', 0), scoped=scoped, capture_logs=capture_logs,
               namespaces=tuple(desc.get('namespaces', ['ns1'])), **(desc.get('kube') or {}))
     w.sim = sim
@@ -151,7 +151,7 @@ def run_world(desc: dict[str, Any], *, scoped: bool = True, capture_logs: bool =
         s = sim.settings(**{**(desc.get('settings') or {}), **(over or {})})
         if peering:
             s.peering.standalone = False
-            s.peering.mandatory = True
+            s.peering.mandatory = not peering.get('namespaced')      # (namespaced: namespaces that come later have no peering object of their own)
             s.peering.name = peering.get('name', 'default')
         make_storage(s, desc.get('storage', 'default'), desc.get('prefix'))
         return s
@@ -268,12 +268,18 @@ def run_world(desc: dict[str, Any], *, scoped: bool = True, capture_logs: bool =
             from kv import vtime
             rec = {'priority': op[2], 'lifetime': op[3], 'lastseen': vtime.iso(sim.now())}
             rec.update(op[4] if len(op) > 4 and op[4] else {})
+            if peering.get('namespaced'):
+                kube.edit('kopfpeerings', op[5], peering.get('name', 'default'), {'status': {op[1]: rec}})      # ['peer', identity, priority, lifetime, extra, namespace]
+                return
             kube.edit('clusterkopfpeerings', None, peering.get('name', 'default'), {'status': {op[1]: rec}})
         elif kind == 'peer_raw':
             from kv import vtime
             rec = {k: (vtime.iso(sim.now()) if v == '$now' else v) for k, v in dict(op[2]).items()}
             kube.edit('clusterkopfpeerings', None, peering.get('name', 'default'), {'status': {op[1]: rec}})
         elif kind == 'unpeer':
+            if peering.get('namespaced'):
+                kube.edit('kopfpeerings', op[2], peering.get('name', 'default'), {'status': {op[1]: None}})
+                return
             kube.edit('clusterkopfpeerings', None, peering.get('name', 'default'), {'status': {op[1]: None}})
         elif kind == 'revoke':
             # the current credentials of an operator stop being valid
@@ -309,7 +315,10 @@ def run_world(desc: dict[str, Any], *, scoped: bool = True, capture_logs: bool =
         return inc
 
     async def scenario(sim: Sim) -> None:
-        if peering:
+        if peering and peering.get('namespaced'):
+            for ns_ in desc.get('namespaces', ['ns1']):
+                kube.create('kopfpeerings', ns_, peering.get('name', 'default'), {'apiVersion': 'kopf.dev/v1', 'kind': 'KopfPeering'})
+        elif peering:
             kube.create('clusterkopfpeerings', None, peering.get('name', 'default'), {'apiVersion': 'kopf.dev/v1', 'kind': 'ClusterKopfPeering'})
             for other, status in (peering.get('others') or {}).items():
                 # peering objects of other operator groups (another name): their records are none of this group's business
